@@ -59,16 +59,19 @@ def capture_jobs(tier):
                     for ordered in (False, True):
                         if n < 2 and ordered: continue
                         J.append((cls, n, tmin, term, ordered))
+        for n, tmin in ((3, 0), (2, 1)):          # waveform exactly fills a capacity of 4: the terminator sits in the last slot
+            for term in ('max', 'ovl'): J.append((cls, n, tmin, term, 'full4'))
     return J
 
 
 def _cap_setup(cls, eng_or_none, n, tmin, term, ordered, vals=None, tcap=None):
     c = netlist.build(CAP_NL, 'verilog')
+    CAP = 4 if ordered == 'full4' else 8
     if vals is None:
-        sw = wsim.SymWave(eng_or_none, cls, c, 8, {0: '0'}, {})
+        sw = wsim.SymWave(eng_or_none, cls, c, CAP, {0: '0'}, {})
         w = sw.w
     else:
-        w = wsim.CLS[cls](c, np.zeros((1, len(c.lines), 2, 2), dtype=np.float32), sims=1, c_caps=8)
+        w = wsim.CLS[cls](c, np.zeros((1, len(c.lines), 2, 2), dtype=np.float32), sims=1, c_caps=CAP)
     zi = 1                                   # s position of output 'z'
     line = c.s_nodes[zi].ins[0].index
     loc = int(w.c_locs[line])
@@ -86,13 +89,13 @@ def capture_job(job):
         ts = [z3.Real(f'w{k}') for k in range(n)]
         for k, t in enumerate(ts):
             eng.assume(t >= -100, t <= 100)
-            if ordered and k: eng.assume(t > ts[k - 1])
+            if ordered and k: eng.assume(t > ts[k - 1])          # ('full4' is ordered too)
         tc = z3.Real('tcap'); eng.assume(tc >= -200, tc <= 200)
         pos = loc
         if tmin: w.c[pos, 0] = T.lift(TMIN); pos += 1
         for t in ts: w.c[pos, 0] = T(0, t); pos += 1
         w.c[pos, 0] = T.lift(TMAX_OVL if term == 'ovl' else TMAX); pos += 1
-        while pos < loc + 8: w.c[pos, 0] = T(0, z3.Real(f'junk{pos}')); pos += 1          # arbitrary content behind the terminator
+        while pos < loc + (4 if ordered == 'full4' else 8): w.c[pos, 0] = T(0, z3.Real(f'junk{pos}')); pos += 1          # arbitrary content behind the terminator
         w.c_to_s(time=T(0, tc))
         s = [w.s[k, zi, 0] for k in range(11)]
         bad = []
@@ -139,7 +142,7 @@ def replay_capture(data):
     if data['tmin']: w.c[pos, 0] = TMIN; pos += 1
     for t in data['ts']: w.c[pos, 0] = t; pos += 1
     w.c[pos, 0] = TMAX_OVL if data['term'] == 'ovl' else TMAX; pos += 1
-    while pos < loc + 8: w.c[pos, 0] = 3.25; pos += 1
+    while pos < loc + (4 if data['ordered'] == 'full4' else 8): w.c[pos, 0] = 3.25; pos += 1
     try: w.c_to_s(time=np.float32(data['tcap']))
     except Exception as e: return True, f'c_to_s raised {type(e).__name__}: {e}'
     s = [float(w.s[k, zi, 0]) for k in range(11)]
